@@ -178,11 +178,17 @@ def _mkpath(n, c1, c2):
     return s
 
 
-def _matcher(agent_kind, ua_i, r1n, r1a, r1b, r2on, r2n, r2a, r2b, cn, ca, cb, second_group):
+def _matcher(agent_kind, ua_i, r1n, r1a, r1b, r2on, r2n, r2a, r2b, cn, ca, cb, second_group, qmode=0):
     """Reference: the group for our agent (a product token match, else '*'); disallowed iff some rule path is a prefix of the URL path."""
     rule1 = _mkpath(r1n, r1a, r1b)
     rule2 = _mkpath(r2n, r2a, r2b) if r2on else None
     cand = _mkpath(cn, ca, cb) + 'x'
+    # qmode 1: the candidate carries a query; 2: and rule 1 reaches into the query string ("Disallow: /path?x")
+    qmode = pick([0, 1, 2], qmode)
+    if qmode >= 1:
+        cand = cand + '?x=1'
+    if qmode == 2:
+        rule1 = rule1 + 'x?x' if not rule1.endswith('x') else rule1 + '?x'
     group_agent = pick(['*', 'wpull', 'otherbot'], agent_kind)
     ua = pick(['Wpull/2.0', 'Mozilla/5.0 (compatible; wpull)', 'curl/7', ''], ua_i)
     text = 'User-agent: %s\nDisallow: %s\n' % (group_agent, rule1)
@@ -201,7 +207,10 @@ def _matcher(agent_kind, ua_i, r1n, r1a, r1b, r2on, r2n, r2a, r2b, cn, ca, cb, s
         rules = ['/zzz']
     else:
         rules = []
-    want = not any(info.path.startswith(r) for r in rules)      # rules apply to the normalised path that will be requested
+    target = info.path + ('?' + info.query if info.query else '')
+    want = not any(target.startswith(r) for r in rules)         # rules apply to the normalised path?query that will be requested
+    if qmode == 2:
+        hit('query-rule')
     hit('allowed' if want else 'disallowed')
     return got == want
 
@@ -303,19 +312,20 @@ HARNESSES = [
           'request log the robots.txt of an origin comes strictly before any other URL of that origin and at most once; disallowed URLs '
           'are never requested (skipped); with a 503 nothing of the origin is requested and the items end in error (postponed)'),
     H('matcher', '_matcher',
-      'agent_kind: int, ua_i: int, r1n: int, r1a: int, r1b: int, r2on: bool, r2n: int, r2a: int, r2b: int, cn: int, ca: int, cb: int, second_group: bool',
-      pre=['0 <= agent_kind <= 2 and 0 <= ua_i <= 3 and 0 <= r1n <= 2 and 0 <= r2n <= 2 and 0 <= cn <= 2',
+      'agent_kind: int, ua_i: int, r1n: int, r1a: int, r1b: int, r2on: bool, r2n: int, r2a: int, r2b: int, cn: int, ca: int, cb: int, second_group: bool, qmode: int',
+      pre=['0 <= agent_kind <= 2 and 0 <= ua_i <= 3 and 0 <= r1n <= 2 and 0 <= r2n <= 2 and 0 <= cn <= 2 and 0 <= qmode <= 2',
            ' and '.join('0 <= %s <= 2' % v for v in ('r1a', 'r1b', 'r2a', 'r2b', 'ca', 'cb'))],
-      parts={'quick': [{'tag': 'one_rule', 'fix': _fx(r2on=False, r2n=0, r2a=0, r2b=0, second_group=False, ua_i=0), 'pre': ['agent_kind <= 1']},
-                       {'tag': 'agents', 'fix': _fx(r1n=1, r1a=1, r1b=0, r2on=False, r2n=0, r2a=0, r2b=0, cn=2, cb=0)},
-                       {'tag': 'two_rules', 'fix': _fx(agent_kind=0, ua_i=0, second_group=False, r2on=True, r1n=2, r1b=1, r2b=2, ca=1), 'pre': ['r2n >= 1']}],
+      parts={'quick': [{'tag': 'one_rule', 'fix': _fx(r2on=False, r2n=0, r2a=0, r2b=0, second_group=False, ua_i=0, qmode=0), 'pre': ['agent_kind <= 1']},
+                       {'tag': 'query', 'fix': _fx(r2on=False, r2n=0, r2a=0, r2b=0, second_group=False, ua_i=0, agent_kind=0, r1b=0, cb=0), 'pre': ['qmode >= 1']},
+                       {'tag': 'agents', 'fix': _fx(r1n=1, r1a=1, r1b=0, r2on=False, r2n=0, r2a=0, r2b=0, cn=2, cb=0, qmode=0)},
+                       {'tag': 'two_rules', 'fix': _fx(agent_kind=0, ua_i=0, second_group=False, r2on=True, r1n=2, r1b=1, r2b=2, ca=1, qmode=1), 'pre': ['r2n >= 1']}],
              'thorough': [{'tag': 'k%d_u%d' % (k, u), 'fix': _fx(agent_kind=k, ua_i=u)} for k in range(3) for u in range(4)]},
-      timeout={'quick': 250, 'thorough': 2400}, samples=[(0, 0, 1, 1, 0, False, 0, 0, 0, 2, 1, 0, False), (1, 2, 0, 0, 0, True, 2, 2, 1, 1, 0, 0, True)],
-      need=['allowed', 'disallowed'],
+      timeout={'quick': 250, 'thorough': 2400}, samples=[(0, 0, 1, 1, 0, False, 0, 0, 0, 2, 1, 0, False, 0), (1, 2, 0, 0, 0, True, 2, 2, 1, 1, 0, 0, True, 1), (0, 0, 1, 1, 0, False, 0, 0, 0, 1, 1, 0, False, 2)],
+      need=['allowed', 'disallowed', 'query-rule'],
       funcs=['wpull/robotstxt.py:RobotsTxtPool.load_robots_txt', 'wpull/robotstxt.py:RobotsTxtPool.can_fetch',
              'wpull/thirdparty/robotexclusionrulesparser.py:RobotExclusionRulesParser.parse', 'wpull/thirdparty/robotexclusionrulesparser.py:RobotExclusionRulesParser.is_allowed'],
       doc='structured robots.txt (agent group "*" / matching product token / other bot, 1-2 Disallow rules with paths over {/,a,b}, '
-          'optional second group) against an independent prefix matcher, for 4 user-agent strings'),
+          'optional second group, candidates with a query string, rules reaching into the query) against an independent prefix matcher over path?query, for 4 user-agent strings'),
     H('whole_file', '_whole_file', 'size_i: int, pad_kind: bool', pre=['0 <= size_i <= 7'], timeout={'quick': 200, 'thorough': 600},
       samples=[(0, True), (5, True), (6, False)], need=['big', 'small'],
       funcs=['wpull/protocol/http/robots.py:RobotsTxtChecker._read_content'],
